@@ -91,6 +91,113 @@ def transition_table(f):
     return out
 
 
+def eval_byte_pred(g, value, arg=2):
+    """run a `|c: u8| -> bool` closure body on one concrete byte: comparisons of the parameter with constants, && / ||
+    (as branches), !.  Returns True / False, or None when the body does something else."""
+    def ev(t):
+        t = g.expand(t)
+        if t[0] == 'int':
+            return t[1]
+        if t[0] == 'var' and t[2] == arg:
+            return value
+        if t[0] in ('deref', 'copy', 'ref') and len(t) == 2:
+            return ev(t[1])
+        if t[0] == 'cast' and len(t) == 3:
+            return ev(t[2])
+        if t[0] == 'un' and t[1] == 'Not':
+            v = ev(t[2])
+            return None if v is None else (0 if v else 1)
+        if t[0] == 'bin':
+            a, b = ev(t[2]), ev(t[3])
+            if a is None or b is None:
+                return None
+            return {'Eq': a == b, 'Ne': a != b, 'Lt': a < b, 'Le': a <= b, 'Gt': a > b, 'Ge': a >= b, 'BitAnd': a & b, 'BitOr': a | b}.get(t[1])
+        if t[0] == 'call' and t[1].endswith('is_ascii_hexdigit'):
+            v = ev(t[2])
+            return None if v is None else chr(v) in '0123456789abcdefABCDEF'
+        if t[0] == 'call' and t[1].endswith('is_ascii_digit'):
+            v = ev(t[2])
+            return None if v is None else chr(v) in '0123456789'
+        return None
+    b = 0
+    ret = None
+    for _ in range(64):
+        blk = g.blocks[b]
+        for st in blk['s']:
+            if st['k'] == 'assign' and st['lhs']['l'] == 0 and not st['lhs'].get('p'):
+                ret = ev(g.rvalue_tree(st['rv']))
+        t = blk['t']
+        if t['k'] == 'return':
+            return None if ret is None else bool(ret)
+        if t['k'] == 'goto':
+            b = t['t']
+        elif t['k'] == 'switch':
+            v = ev(g.operand_tree(t['x']))
+            if v is None:
+                return None
+            v = int(v)
+            b = dict((x, tgt) for x, tgt in t['ts']).get(v, t['o'])
+        elif t['k'] == 'call' and (t.get('dest') or {}).get('l') == 0 and 't' in t:
+            ret = ev(g.call_tree(t))
+            b = t['t']
+        else:
+            return None
+    return None
+
+
+def tokenisers(res, prog, c):
+    """C10.8: a record is parsed from one line, however much of the file is in the buffer.  Every `take_while(pred)` /
+    `take_till(pred)` of the record parsers stops at a line feed: the predicate is run on the byte 10 (a finite check of
+    its branch structure) and must not accept it - otherwise a field runs into the next line exactly when that line
+    happens to be in the same chunk, and the outcome depends on chunking."""
+    res.rule('C10.8', 0, floor=2, note='field tokenisers of the symbol-file record parsers never run across a line feed')
+    for f in c.fns:
+        if not f.path.startswith('breakpad_symbols::sym_file::parser::') or (f.mac and f.mac.startswith('derive(')):
+            continue
+        for b, t in f.calls():
+            n = f.callee(t) or ''
+            m = re.search(r'nom::bytes::(complete|streaming)::(take_while1?|take_till1?|take_while_m_n)$', n)
+            if not m:
+                continue
+            cl = f.expand(f.operand_tree(t['args'][-1] if m.group(2) != 'take_while_m_n' else t['args'][2]))
+            if cl[0] != 'closure':
+                continue
+            g = c.fn(cl[1])
+            if g is None:
+                continue
+            res.rule('C10.8', 1)
+            v = eval_byte_pred(g, 10)
+            takes = v if m.group(2).startswith('take_while') else (None if v is None else not v)
+            if takes is None:
+                res.violation('C10.8', 'C10.8|%s|opaque' % f.path.split('::')[-1], f, t.get('line'), 'cannot evaluate the predicate of %s on a line feed' % m.group(2))
+            elif takes and not f.path.endswith('::my_eol'):
+                res.violation('C10.8', 'C10.8|%s' % f.path.split('::')[-1], f, t.get('line'), '%s in %s consumes line feeds: a field of this record can run into the next line when that line is in the same chunk' % (m.group(2), f.path.split('::')[-1]))
+
+
+def eof_vs_full(res, prog, c):
+    """C10.9: a zero-length read means "end of input" or "the buffer is full".  The loops tell the two apart by trying to
+    grow; when growing would pass the cap they enter the discard-until-newline recovery.  At a real end of input with an
+    unterminated last line that decision depends on how large earlier lines have made the buffer, i.e. on the chunk
+    schedule: the same bytes are accepted or rejected.  Recovery may be entered on a zero-length read only under a test
+    that the buffer has no free space."""
+    res.rule('C10.9', 0, floor=2, note='on a zero-length read, recovery mode is entered only when the buffer is actually full')
+    for path in (PARSE, PARSE_ASYNC):
+        f = c.fn(path)
+        if f is None:
+            res.error('C10.9', '%s not found' % path)
+            continue
+        for b in sorted(f.reach):
+            for s_ in f.blocks[b]['s']:
+                if s_['k'] == 'assign' and f.local_name(s_['lhs']['l']) == 'in_panic_recovery' and f.rvalue_tree(s_['rv']) == ('int', 1):
+                    facts = [r for r, g, sx in panics.dominating_facts(f, b)]
+                    if not any(r[0] == 'eq' and show(r[1]) == 'size' and r[2] == ('int', 0) for r in facts):
+                        continue
+                    res.rule('C10.9', 1)
+                    full = any(re.search(r'Buffer::(available_space|space)', show(f.expand(r[1]))) and 'read' not in show(f.expand(r[1])) for r in facts if len(r) > 1)
+                    if not full:
+                        res.violation('C10.9', 'C10.9|eof-vs-full|%s' % ('async' if 'async' in path else 'sync'), f, s_.get('line'), 'after a zero-length read the loop enters discard-until-newline recovery without testing that the buffer is full: at end of input an unterminated last line is dropped (Ok) or reported (Err) depending on how far earlier lines grew the buffer')
+
+
 def run(tier, t0):
     res = harness.Result(PID)
     prog = program()
@@ -105,6 +212,8 @@ def run(tier, t0):
     # C10.5 the end-of-input decision never uses a stale fully_consumed (boolean abstraction of both loops)
     from . import parseloop
     parseloop.check(res, prog, None, 'C10.5')
+    tokenisers(res, prog, c)
+    eof_vs_full(res, prog, c)
     # C10.7 a record parser never looks past the end of its own line: what it consumes must not depend on what the
     # window happens to hold after the line.  (a) my_eol is exactly `\r* \n`, once; (b) the parser module uses no nom
     # combinator that repeats a sub-parser an input-dependent number of times other than separated_list1 (which runs
